@@ -61,7 +61,8 @@ KeyHist(c, r) ==
            IF r.st = StAccepted THEN <<>> ELSE <<HV("C08", "an upsert with a value into a cache with room was not accepted")>>>>
     [] r.op = "del_then_get" ->
          <<c, IF r.got # Absent
-              THEN <<HV("C04", "a read that began after delete() had returned still found the key (same thread, nobody else writes the key)")>>
+              THEN <<HV("C04", "a read that began after delete() had returned still found the key (same thread, nobody else writes the key)"),
+                     HV("C02", "a read returned a value although a delete of the key had already returned (same thread, nobody else writes the key)")>>
               ELSE <<>>>>
     [] r.op = "del_ack" ->
          <<Absent,
@@ -85,6 +86,13 @@ KeyHist(c, r) ==
                   THEN <<HV("C06", "the resident key was evicted although the incoming key was refused")>> ELSE <<>>)>>
     \* "hand-over" rounds: r.v = 1 when the first task saw Pending and the second one went to sleep; r.got = -1 when the sleeper was
     \* not woken although the acknowledgement completed
+    [] r.op = "handover_shut" ->     \* the same, with a shutdown that may complete the acknowledgement by draining the queue
+         <<c, (IF r.got = Absent
+               THEN <<HV("C13", "a caller sleeping on an acknowledgement handed out before shutdown was never woken: it waits for ever"),
+                      HV("C12", "the task that most recently polled the acknowledgement before completion was not woken by it"),
+                      HV("C18", "a task awaiting an acknowledgement was never woken: its await would not return")>>
+               ELSE <<>>)
+              \o (IF r.st = 0 THEN <<HV("C12", "awaiting the acknowledgement yielded the placeholder status")>> ELSE <<>>)>>
     [] r.op = "handover" ->
          <<c, (IF r.got = Absent
                THEN <<HV("C12", "the task that most recently polled the acknowledgement before completion was not woken by it"),
